@@ -124,6 +124,33 @@ func (env *SpecEnv) eval(e SExpr) Val {
 	case *SIdent:
 		return env.ident(x.Name)
 	case *SUn:
+		if x.Op == "&" {
+			// address of a struct-typed field of a heap object
+			sel, ok := x.X.(*SSel)
+			if !ok {
+				env.fail("& needs x.field")
+			}
+			base := env.nopol().eval(sel.X)
+			n, stT, isPtr := structOf(base.Go)
+			if !isPtr || stT == nil {
+				env.fail("&x.f: x must be a pointer to a struct")
+			}
+			for i := 0; i < stT.NumFields(); i++ {
+				if stT.Field(i).Name() == sel.Name {
+					ft := ex.fieldType(base.Go, stT.Field(i))
+					fn := sym("fieldaddr_" + ex.w.typeString(base.Go) + "." + sel.Name)
+					if !ex.w.declared[fn] {
+						ex.w.declFun(fn, []*Sort{sRef}, sRef)
+						inv := sym("fieldaddr_inv_" + ex.w.typeString(base.Go) + "." + sel.Name)
+						ex.w.declFun(inv, []*Sort{sRef}, sRef)
+						ex.w.axioms = append(ex.w.axioms, fmt.Sprintf("(forall ((r Ref)) (! (and (= (%s (%s r)) r) (not (= (%s r) nil))) :pattern ((%s r))))", inv, fn, fn, fn))
+					}
+					_ = n
+					return Val{T: sApp(fn, base.T), S: sRef, Go: types.NewPointer(ft)}
+				}
+			}
+			env.fail("no field %s", sel.Name)
+		}
 		if x.Op == "!" {
 			v := env.flip().eval(x.X)
 			return Val{T: sNot(v.T), S: sBool, Go: v.Go}
@@ -518,6 +545,13 @@ func (env *SpecEnv) call(x *SCall) Val {
 				}
 				v := env.eval(x.Args[0])
 				return Val{T: ex.w.zero(v.S), S: v.S, Go: v.Go}
+			case "zeroof":
+				a, ok := x.Args[0].(*SStr)
+				if !ok {
+					env.fail("zeroof needs a quoted type")
+				}
+				ty, s := env.resolveType(a.V)
+				return Val{T: ex.w.zero(s), S: s, Go: ty}
 			case "alloc":
 				v := env.eval(x.Args[0])
 				if v.S.Kind == KSlice {
@@ -534,6 +568,42 @@ func (env *SpecEnv) call(x *SCall) Val {
 					return Val{T: sAnd(sNot(sEq(a, "nilarr")), sNot(sSel(ex.arrAllocArr(env.old), a)), sSel(ex.arrAllocArr(env.st), a)), S: sBool}
 				}
 				return Val{T: sAnd(sNot(sEq(v.T, "nil")), sNot(sSel(ex.allocArr(env.old), v.T)), sSel(ex.allocArr(env.st), v.T)), S: sBool}
+			case "chseq", "chn", "chpos", "chsent", "chns", "chclosed":
+				c := env.nopol().eval(x.Args[0])
+				elem := chanElem(c.Go)
+				if elem == nil {
+					env.fail("%s needs a channel", id.Name)
+				}
+				ck := ex.chanKeysOf(elem)
+				var k mapKeyInfo
+				var rs *Sort
+				var rgo types.Type
+				es := ex.w.sortOf(elem)
+				switch id.Name {
+				case "chseq":
+					k = ck.seq
+					ss := *ex.w.seqSort(es)
+					e2 := *es
+					e2.Go = elem
+					ss.Elem = &e2
+					rs = &ss
+				case "chsent":
+					k = ck.sent
+					ss := *ex.w.seqSort(es)
+					e2 := *es
+					e2.Go = elem
+					ss.Elem = &e2
+					rs = &ss
+				case "chn":
+					k, rs, rgo = ck.n, sInt, types.Typ[types.Int]
+				case "chpos":
+					k, rs, rgo = ck.pos, sInt, types.Typ[types.Int]
+				case "chns":
+					k, rs, rgo = ck.ns, sInt, types.Typ[types.Int]
+				case "chclosed":
+					k, rs, rgo = ck.closed, sBool, types.Typ[types.Bool]
+				}
+				return Val{T: ex.chGet(env.st, k, c.T), S: rs, Go: rgo}
 			case "hint":
 				// instantiation hint: contributes the index-witness fact (ix e) when the enclosing
 				// formula is assumed, and is simply true when it has to be proved
@@ -563,6 +633,33 @@ func (env *SpecEnv) call(x *SCall) Val {
 			case "sameSlice":
 				a, b := env.eval(x.Args[0]), env.eval(x.Args[1])
 				return Val{T: sEq(a.T, b.T), S: sBool}
+			case "box":
+				v := env.nopol().eval(x.Args[0])
+				if v.S.Kind == KRef {
+					return v
+				}
+				return Val{T: ex.box(v), S: sRef}
+			case "isa", "unbox":
+				// isa(x, T): interface value x holds a T; unbox(x, T): the T it holds
+				v := env.nopol().eval(x.Args[0])
+				tn, ok := x.Args[1].(*SIdent)
+				if !ok {
+					env.fail("%s needs a type name", id.Name)
+				}
+				ty, ts := env.resolveType(tn.Name)
+				if ts.Kind == KRef {
+					if id.Name == "isa" {
+						return Val{T: "true", S: sBool}
+					}
+					return Val{T: v.T, S: sRef, Go: ty}
+				}
+				bx := ex.box(Val{T: "x", S: ts, Go: ty})
+				fnBox := strings.TrimSuffix(strings.TrimPrefix(bx, "("), " x)")
+				un := strings.Replace(fnBox, "box_", "unbox_", 1)
+				if id.Name == "isa" {
+					return Val{T: sAnd(sNot(sEq(v.T, "nil")), sEq(v.T, sApp(fnBox, sApp(un, v.T)))), S: sBool}
+				}
+				return Val{T: sApp(un, v.T), S: ts, Go: ty}
 			case "minval", "maxval":
 				v := env.nopol().eval(x.Args[0])
 				lo, hi, ok := ex.intRange(v.Go)
@@ -805,6 +902,15 @@ func (env *SpecEnv) ghostField(t types.Type, name string) (*GhostField, string, 
 		// the package that declares the ghost field
 		c.typeScopePkg = env.ex.prog.Pkgs[owner.Path]
 		c.typeScopePos = token.NoPos
+		// a position in file scope of the file that holds the contracts (its imports are visible)
+		if c.typeScopePkg != nil {
+			for _, f := range c.typeScopePkg.P.Syntax {
+				c.typeScopePos = f.Name.End()
+				if strings.Contains(env.ex.prog.Fset.Position(f.Pos()).Filename, "verif_contracts") {
+					break
+				}
+			}
+		}
 	}
 	c.typeScopeNamed = nt.Origin()
 	gty, gs := c.resolveType(g.Type)
@@ -890,6 +996,19 @@ func (env *SpecEnv) tryResolveType(s string) (types.Type, *Sort) {
 			}
 		}
 	}
+	// a type parameter known by name through the substitution (needed for ghost fields of generic
+	// types declared outside the repository)
+	for tp, ty := range env.tsub {
+		if s == tp.Obj().Name() || s == "*"+tp.Obj().Name() {
+			if tp.Obj().Pkg() != nil && ex.prog.Pkgs[tp.Obj().Pkg().Path()] == nil {
+				t := ty
+				if strings.HasPrefix(s, "*") {
+					t = types.NewPointer(ty)
+				}
+				return t, ex.w.sortOf(t)
+			}
+		}
+	}
 	// Go type
 	expr, err := parser.ParseExpr(s)
 	if err != nil {
@@ -907,7 +1026,17 @@ func (env *SpecEnv) tryResolveType(s string) (types.Type, *Sort) {
 		return nil, nil
 	}
 	info := &types.Info{Types: map[ast.Expr]types.TypeAndValue{}}
-	if err := types.CheckExpr(ex.prog.Fset, pkg.P.Types, pos, expr, info); err != nil {
+	err = types.CheckExpr(ex.prog.Fset, pkg.P.Types, pos, expr, info)
+	if err != nil && env.typeScopePkg != nil {
+		// try the file scopes of the package (imports are per file)
+		for _, f := range pkg.P.Syntax {
+			info = &types.Info{Types: map[ast.Expr]types.TypeAndValue{}}
+			if err = types.CheckExpr(ex.prog.Fset, pkg.P.Types, f.Name.End(), expr, info); err == nil {
+				break
+			}
+		}
+	}
+	if err != nil {
 		// unexported type of another package of the repository: [*]pkg.name[Args]
 		if ty := env.resolveForeign(s); ty != nil {
 			defer func() { recover() }()
@@ -966,6 +1095,7 @@ type writeSet struct {
 	vars map[types.Object]bool
 	keys map[string]*Sort
 	all  bool
+	chanAll bool // channel ghost state of every element sort seen so far
 }
 
 // evalModifies evaluates the modifies targets of a contract in env (pre-state).
@@ -992,6 +1122,21 @@ func (env *SpecEnv) evalModifies(c *Contract) []modTarget {
 					out = append(out, t)
 				}
 				continue
+			}
+			if id, ok := x.Fn.(*SIdent); ok {
+				switch id.Name {
+				case "chseq", "chn", "chpos", "chsent", "chns", "chclosed":
+					c := env.eval(x.Args[0])
+					elem := chanElem(c.Go)
+					if elem == nil {
+						env.fail("%s needs a channel", id.Name)
+					}
+					ck := ex.chanKeysOf(elem)
+					k := map[string]mapKeyInfo{"chseq": ck.seq, "chn": ck.n, "chpos": ck.pos, "chsent": ck.sent, "chns": ck.ns, "chclosed": ck.closed}[id.Name]
+					ex.heapGet(env.st, k.key, k.sort)
+					out = append(out, modTarget{key: k.key, obj: c.T, sort: k.sort})
+					continue
+				}
 			}
 			if id, ok := x.Fn.(*SIdent); ok && id.Name == "mapof" {
 				v := env.eval(x.Args[0])
@@ -1145,6 +1290,16 @@ func (ex *Exec) havocHeap(st *State, pre *State, ws *writeSet, targets []modTarg
 		a0 := ex.arrAllocArr(st)
 		a1 := ex.heapHavoc(st, "arralloc", ex.w.setSort(sArrId))
 		st.assume(fmt.Sprintf("(forall ((r ArrId)) (! (=> (select %s r) (select %s r)) :pattern ((select %s r))))", a0, a1, a0))
+	}
+	if ws.chanAll {
+		for key, s := range ex.heapS {
+			if strings.HasPrefix(key, "ch") && strings.Contains(key, ":") && ws.keys[key] == nil {
+				switch strings.SplitN(key, ":", 2)[0] {
+				case "chseq", "chn", "chpos", "chsent", "chns", "chclosed":
+					ws.keys[key] = s
+				}
+			}
+		}
 	}
 	for _, key := range sortedKeys(ws.keys) {
 		s := ws.keys[key]
